@@ -4,6 +4,7 @@ import OSProofs.CodeShaped
 import OSProofs.Props.FL2
 import OSProofs.MonoArithInst
 import OSProofs.Props.PredictLoops
+import OSProofs.Props.FL4Inst
 #print axioms OS.C11_ranks_length
 #print axioms OS.C11_rankData_range
 #print axioms OS.C11_rankData_strict
@@ -50,3 +51,10 @@ import OSProofs.Props.PredictLoops
 #print axioms OS.FL_C11_ranks_max_one
 #print axioms OS.predictRankLoop_eq
 #print axioms OS.predictRankLoop_eq_real
+#print axioms OS.MonoArith.orderLaws
+#print axioms OS.rankDataCode_eq_of_preorder
+#print axioms OS.rankDataCode_eq_mono
+#print axioms OS.predictRankLoop_eq_of_preorder
+#print axioms OS.predictRankLoop_eq_mono
+#print axioms OS.rankDataCode_eq_rn
+#print axioms OS.predictRankLoop_eq_rn
